@@ -295,6 +295,11 @@ Del(k) == /\ kv' = [kv EXCEPT ![k] = NoVal] /\ trie' = DelN(trie, k)
 Snap(s) == /\ snaps' = [snaps EXCEPT ![s] = [kv |-> kv, trie |-> trie, fl |-> FALSE]]
            /\ UNCHANGED <<kv, trie>>
            /\ Log(Rec("snap", 1, NoVal, s, 0, RawObs(trie, s, kv)))
+\* GetSnapshot without asking the snapshot for anything (no Hash, no proof, no read): its nodes are frozen but not hashed when
+\* the mutable trie is written next; the snapshot is looked at later (Check / Look)
+SnapLazy(s) == /\ snaps' = [snaps EXCEPT ![s] = [kv |-> kv, trie |-> trie, fl |-> FALSE]]
+               /\ UNCHANGED <<kv, trie>>
+               /\ Log(Rec("snaplazy", 0, NoVal, s, 0, NoObs))
 \* ord: which kind of read meets the trie first (1 Get, 2 Iterator, 3 Filter, 4 GetProof).  The results do not depend on
 \* it; on a reloaded or cache-cleared trie the first read is the one that realizes the nodes from the database.
 Check(s, ord) == /\ UNCHANGED <<kv, trie, snaps>>
@@ -322,6 +327,7 @@ Next == \/ \E k \in Keys, v \in Vals : Can /\ Set(k, v)
         \/ \E s \in 1..MaxSnaps : Can /\ Snap(s)
         \/ \E s \in 1..MaxSnaps, ord \in 1..4 : Can /\ Check(s, ord)
         \/ Can /\ HistOn /\ Look
+        \/ \E s \in 1..MaxSnaps : Can /\ HistOn /\ SnapLazy(s)
         \/ \E s \in 1..MaxSnaps : Can /\ Reset(s)
         \/ \E s \in 1..MaxSnaps : Can /\ Flush(s)
         \/ \E s \in 1..MaxSnaps, ord \in 1..4 : Can /\ Reload(s, ord)
